@@ -29,3 +29,15 @@ func verifHashLemma(n, pre, post int) {
 		verifAssert(FastHash(w) == 0, "hash: FastHash of the empty string is 0")
 	}
 }
+
+// verifHashLemmaBytes: the two entry points agree on arbitrary bytes, not only on
+// ASCII (the tables add with FastHash and look up with FastHashBetween).  Non-ASCII
+// strings are concrete here: the executor does not decode symbolic UTF-8.
+func verifHashLemmaBytes() {
+	for _, s := range []string{"\xc3\xa9", "\xd1\x80\xd0\xb5\xd0\xba", "a\xffb", "\x80", "ab\xe2\x82\xac", "\xf0\x9f\x98\x80x"} {
+		verifAssert(FastHash(s) == FastHashBetween(s, 0, len(s)), "hash: FastHash(s) == FastHashBetween(s, 0, len(s)) on non-ASCII bytes")
+		t := "zz" + s
+		verifAssert(FastHashBetween(t, 2, len(t)) == FastHashBetween(s, 0, len(s)), "hash: FastHashBetween depends on the window bytes only (non-ASCII)")
+	}
+	verifReach("hash.lemma.bytes")
+}
